@@ -181,7 +181,19 @@ def main(argv):
             res.violation(key, case, msg, observed=c["status"])
             res.current_unit = None
     else:
-        res = explore.run_pool(mod, units, a.jobs)
+        utimeout = getattr(mod, "UNIT_TIMEOUT", 900.0 if tier == "quick" else 6 * 3600.0)
+        res = explore.run_pool(mod, units, a.jobs, unit_timeout=utimeout)
+        for c in getattr(res, "unit_crashes", []):
+            # the interpreter did not survive a unit (crash inside a kernel, abort, endless loop): reported
+            # against the unit, confirmed by re-running the unit in a fresh process
+            kind = "hang" if "timeout" in c["status"] else "crash"
+            sk, sf = sanitizer_key(c["stderr"] or "")
+            res.current_unit = c["unit"]
+            res.violation("unit:%s%s" % (kind, ":%s" % sf if sf else ""), {"unit_crash": True, "unit": c["unit"]},
+                          "the interpreter did not survive the calls of this unit (%s): %s %s" % (
+                              c["status"], json.dumps(c["unit"], default=repr)[:300], (c["stderr"] or "")[-300:]),
+                          observed=c["status"])
+            res.current_unit = None
     wall = time.time() - t0
 
     findings = load_findings()
@@ -202,13 +214,16 @@ def main(argv):
         if not a.no_confirm and getattr(mod, "CONFIRM", True):
             env = dict(os.environ)
             env["VERIF_REPLAY_QUIET"] = "1"
-            try:
-                r = subprocess.run([sys.executable, "-m", "mc.runner", pid, "--replay", path],
-                                   cwd=VERIF, env=env, capture_output=True, text=True,
-                                   timeout=getattr(mod, "REPLAY_TIMEOUT", 300))
-                confirmed = (r.returncode != 0)
-            except subprocess.TimeoutExpired:
-                confirmed = True
+            if isinstance(v["case"], dict) and v["case"].get("unit_crash"):
+                confirmed = False       # only the whole unit can be replayed
+            else:
+                try:
+                    r = subprocess.run([sys.executable, "-m", "mc.runner", pid, "--replay", path],
+                                       cwd=VERIF, env=env, capture_output=True, text=True,
+                                       timeout=getattr(mod, "REPLAY_TIMEOUT", 300))
+                    confirmed = (r.returncode != 0)
+                except subprocess.TimeoutExpired:
+                    confirmed = True
             if not confirmed and v.get("unit") is not None:
                 # not reproduced by the single case: the failure may depend on the calls made before it in
                 # the same unit (state leaking between calls). Re-run the whole unit in a fresh process.
@@ -219,8 +234,8 @@ def main(argv):
                                        timeout=getattr(mod, "UNIT_REPLAY_TIMEOUT", 1800))
                     confirmed = (r.returncode != 0)
                 except subprocess.TimeoutExpired:
-                    confirmed = False
-                if confirmed:
+                    confirmed = key.startswith("unit:hang")
+                if confirmed and not key.startswith("unit:"):
                     history_dep.append(key)
         if confirmed:
             nv += 1
